@@ -128,8 +128,14 @@ class PolicyDirectoryMonitor(multiprocessing.Process):
                         self.policy_cache[p] = []
                     self.policy_store[p] = new_p.get(p)
                     self.policy_map[p] = f
+                # Forget every cached definition this file gave to a policy it
+                # no longer defines, whether or not the file currently owns
+                # the policy. Otherwise a definition that was shadowed by
+                # another file when it was dropped would be restored later.
+                for p in list(self.policy_cache.keys()):
+                    if p not in new_p:
+                        self.disassociate_policy_and_file(p, f)
                 for p in set(old_p) - set(new_p.keys()):
-                    self.disassociate_policy_and_file(p, f)
                     self.restore_or_delete_policy(p)
 
     def run(self):
